@@ -96,12 +96,12 @@ L2(T) == Mon(T, 1, <<>>)
 (* L2b: when a flow instance ends in a macro step, each of its unfinished actions that no running
    flow shares any more is sent a Stop in that step (judged for actions that existed before the step) *)
 ActStatus(P, u) == P.actions[CHOOSE i \in 1..Len(P.actions) : P.actions[i].uid = u].status
-L2b(Pprev, Pnext, step) ==
+L2b(Pprev, Pnext, step, stopped) ==         \* stopped: the actions that were sent a Stop in an earlier step
   \A i \in 1..Len(Pprev.flows) :
      LET f == Pprev.flows[i] IN
      (Running(f) /\ f.uid \in FlowUids(Pnext) /\ Done(Flow(Pnext, f.uid))) =>
         \A a \in Range(f.actions) :
-           (/\ a \in ActUids(Pprev) /\ ActStatus(Pprev, a) \in {"STARTING", "STARTED"}
+           (/\ a \in ActUids(Pprev) /\ ActStatus(Pprev, a) \in {"STARTING", "STARTED"} /\ a \notin stopped
             /\ ~(step.in_act[1] = "Finished" /\ step.in_act[2] = a)
             /\ ~\E j \in 1..Len(Pnext.flows) : Running(Pnext.flows[j]) /\ a \in Range(Pnext.flows[j].actions))
            => \E k \in 1..Len(step.out_acts) : step.out_acts[k] = <<"Stop", a>>
